@@ -282,7 +282,7 @@ class tick_of:
     def __enter__(self):
         self.old = hs.TICK[0], hs.EPOCH[0]
         hs.TICK[0] = timedelta(microseconds=self.spec["tick_us"]) if self.spec.get("tick_us") else timedelta(minutes=1)
-        hs.EPOCH[0] = datetime(*self.spec["t0"]) if self.spec.get("t0") else hs.T0
+        hs.EPOCH[0] = datetime(*self.spec["t0"]) if self.spec.get("t0") else None
 
     def __exit__(self, *a):
         hs.TICK[0], hs.EPOCH[0] = self.old
